@@ -90,6 +90,15 @@ CHECKS = {
             'and list families with inconsistent lengths, must be rejected; formatting variants (whitespace, comments at every token boundary, key orders) must answer bit-identically to the canonical file.',
             'Single deviations only (pairs are not enumerated); base documents as listed; the schema verdict is used one way (invalid => reject).',
             'DESIGN.md section 3 C12'),
+    'C17': ('exploration', 'E1',
+            'bounded exhaustive enumeration (full product of worlds x dim x compositions x grain compositions x grains x convert spherical x separator; every special line of a comment / option-prefix / malformed-row alphabet at three positions) with the real gwb-dat binaries run as subprocesses, cell-by-cell differential oracle against the library',
+            'The real gwb-dat binary is run once per configuration on the full point lattice; the header is parsed into column names and every cell is compared as a string with the value '
+            'World::properties returns for that column at that row (printed through the same ostream formatting), including the echoed coordinates. Every line of the special-line alphabet '
+            '(bare #, every token-prefix of every option line, comments of 1..8 words, option look-alikes, rows with too few / too many columns, 7 kinds of non-numeric token at every position, '
+            'trailing garbage, refused option values) is inserted before, between and after the rows and run through the ASan+UBSan build of the tool with libstdc++ assertions: comments must leave '
+            'the table unchanged, malformed lines must end the run with a message, and nothing may be undefined behaviour.',
+            'Worlds, counts and the special-line alphabet as listed; the harness links the same libwb.a, so exact string equality is required. Two known findings (2-D column shift, 3-D header column g) are pinned by reference outputs.',
+            'DESIGN.md section 3 C17'),
 }
 NOT_YET = {}
 
